@@ -68,22 +68,11 @@ def admittance_sums(rep, prog):
     fn = mem[1]
     ev = new_ev(prog)
     t = ev.call_fn(fn, mem[0], [A('self'), A('node')], {}, {'__parent__': None}, 1)
-    while isinstance(t, Opq) and t.k and t.k[0] == 'mutated' and t.k[1] == 'sort': t = t.k[2]        # sorting does not change the membership
+    while isinstance(t, Opq) and t.k and ((t.k[0] == 'mutated' and t.k[1] == 'sort') or t.k[0] == 'sorted'):        # sorting does not change the membership
+        t = t.k[2] if t.k[0] == 'mutated' else t.k[1]
     sp = spec(ev, "[b for b in self.branches if b.node1 == node or b.node2 == node]", env, nm)
     okc = True if term_equal(t, sp) else (None if has_opaque(t) or not isinstance(t, Comp) else False)
     rep.ob('R01.Y', 'Network.branches_connected_to', okc, 'branches with either terminal on the node', prog.site(mem[0], fn))
-    # node_admittance_matrix works on the network without exactly its ideal voltage sources
-    f = prog.func(NA, 'node_admittance_matrix')
-    st = [s_ for s_ in f.node.body if isinstance(s_, _ast.Assign) and isinstance(s_.value, _ast.Call) and _ast.unparse(s_.value.func) == 'Network']
-    okn = None
-    if st:
-        ev = new_ev(prog); ev.opaque_fns |= {('Network.elements', 'is_ideal_voltage_source')}
-        t = ev.ev(st[0].value, {'__parent__': None, 'network': A('network')}, m, 1)
-        envn = dict(env, Network=ev.ref_of(prog.resolve(prog.mod('Network.network'), 'Network')), is_ideal_voltage_source=ev.ref_of(prog.resolve(prog.mod('Network.elements'), 'is_ideal_voltage_source')))
-        e3 = ev.fresh(); e3.opaque_fns = set(ev.opaque_fns)
-        sp = e3.ev(_ast.parse("Network(branches=[b for b in network.branches if not is_ideal_voltage_source(b.element)], node_zero_label=network.node_zero_label)", mode='eval').body, dict({'__parent__': None}, **envn), m, 0)
-        okn = True if term_equal(t, sp) else (None if has_opaque(t) else False)
-    rep.ob('R01.Y', 'without-ideal-voltage-sources', okn, 'Y is assembled from all branches except the ideal voltage sources, same reference node', f.site)
 
 
 def solve_path(rep, prog):
@@ -181,39 +170,35 @@ def _return_signs(fn, prog=None):
 
 
 def signs(rep, prog, interps):
-    m = prog.mod(NA)
+    from . import incidence as INC
+    tabs = INC.tables(prog)
     table = {}
-    # B: voltage_source_incidence_matrix (value returned by the nested direction function, stored at [node, vs])
-    f = prog.funcs.get(f'{NA}::voltage_source_incidence_matrix')
-    rs = _return_signs(f.node, prog) if f else []
-    for term, sg in rs: table[('B', term)] = sg
-    # Q and Delta: constants stored at incidence sites (from the abstract run)
-    for e in ('mna', 'ssm'):
-        for s in interps[e].signs:
-            if s['fn'].endswith('source_incidence_matrix') and 'inductance' not in s['fn'] and s['terminal']: table[('Q', s['terminal'])] = s['sign']
-            if s['fn'].endswith('element_incidence_matrix') and s['terminal']: table[('Delta', s['terminal'])] = s['sign']
-    site = f.site if f else ''
     for mat in ('B', 'Q', 'Delta'):
-        a, b = table.get((mat, 'node1')), table.get((mat, 'node2'))
-        if a is None or b is None:
-            rep.ob('R01.sign', f'{mat}:antisymmetric', None, f'incidence site of {mat} not recognised (node1={a}, node2={b})', site); continue
-        rep.ob('R01.sign', f'{mat}:antisymmetric', a == -b, f'{mat}[node1]={a:+d}, {mat}[node2]={b:+d}', site)
-    # Y: diagonal +sum, off-diagonal -between
-    g = prog.funcs.get(f'{NA}::node_admittance_matrix.node_matrix_element')
-    okY = None
-    if g is not None:
-        ev = Evaluator(prog); ev.opaque_fns |= {(NA, 'admittance_connected_to'), (NA, 'admittance_between')}
-        parent = prog.func(NA, 'node_admittance_matrix')
-        env = {'__parent__': None, 'no_voltage_sources_network': A('net')}
-        t = ev.call_fn(g.node, g.mod, [A('i'), A('j')], {}, env, 1)
-        if isinstance(t, Cond):
-            d, o = t.a, t.b
-            sd = "'admittance_connected_to'" in repr(tkey(d)) and as_poly(d).single() is not None and as_poly(d).single()[1][0] > 0
-            so = "'admittance_between'" in repr(tkey(o)) and as_poly(o).single() is not None and as_poly(o).single()[1][0] < 0
-            okY = bool(sd and so) if not (has_opaque(d) or has_opaque(o)) else None
-            rep.ob('R01.sign', 'Y:diag/offdiag', okY, f'i==j: {d!r:.80} ; else {o!r:.80}', g.site)
-        else:
-            rep.ob('R01.sign', 'Y:diag/offdiag', None, f'{t!r:.120}', g.site)
+        tb = tabs[mat]
+        site = tb.get('site', '')
+        if 'undecided' in tb:
+            rep.ob('R01.sign', f'{mat}:antisymmetric', None, f"incidence table of {mat} not decided: {tb['undecided']}", site); continue
+        a, b, o = tb['node1'], tb['node2'], tb['other']
+        table[(mat, 'node1')], table[(mat, 'node2')] = int(a), int(b)
+        ok = a == -b and abs(a) == 1 and o == 0
+        rep.ob('R01.sign', f'{mat}:antisymmetric', bool(ok), f'{mat}[node1]={int(a):+d}, {mat}[node2]={int(b):+d}, elsewhere {o}', site)
+        rep.ob('R01.sign', f'{mat}:reference-skipped', bool(tb['ref_guard']),
+               'a terminal on the reference node stores nothing (the node map has no row for it)' if tb['ref_guard'] else 'a terminal on the reference node is looked up in the node map', site)
+    # Y: diagonal +sum over the branches at the node, off-diagonal -sum over the branches between the two nodes, on the network without ideal voltage sources
+    yt = INC.admittance_table(prog)
+    if 'undecided' in yt:
+        rep.ob('R01.sign', 'Y:diag/offdiag', None, f"entries of Y not decided: {yt['undecided']}", yt.get('site', ''))
+        rep.ob('R01.Y', 'without-ideal-voltage-sources', None, 'entries of Y not decided', yt.get('site', ''))
+    else:
+        (cd, fd, ad, kd), (co, fo, ao, ko) = yt['diag'], yt['off']
+        Lr, Lc = yt['off:labels']
+        okd = cd == 1 and fd == 'admittance_connected_to' and len(ad) == 2 and not kd and ad[1] in (tkey(Lr), tkey(Lc))
+        oko = co == -1 and fo == 'admittance_between' and len(ao) == 3 and not ko and {repr(ao[1]), repr(ao[2])} == {repr(tkey(Lr)), repr(tkey(Lc))}
+        rep.ob('R01.sign', 'Y:diag/offdiag', bool(okd and oko), f'row == column: {cd}·{fd}(net, row) ; else {co}·{fo}(net, row, column)', yt['site'])
+        want = tkey(yt['spec_network'])
+        okn = (ad and ad[0] == want) and (ao and ao[0] == want)
+        rep.ob('R01.Y', 'without-ideal-voltage-sources', True if okn else (None if ('opq', '?') in (ad[:1] + ao[:1]) else False),
+               'Y is assembled from all branches except the ideal voltage sources, same reference node', yt['site'])
     # voltage = phi(node1) - phi(node2)
     mm, cls = class_of(prog, 'Network.NodalAnalysis.solution', 'NodalAnalysisSolution')
     ev = new_ev(prog)
@@ -261,24 +246,10 @@ def _readback_signs(prog):
     p = as_poly(first) if isinstance(first, (Poly, int)) else None
     if p is not None and p.single() is not None and '_voltage_source_currents' in repr(p.key()):
         s_read = 1 if p.single()[1][0] > 0 else -1
-    from ..prog import returned_expr
-    f = prog.func(NA, 'current_source_incidence_vector')
-    rv = returned_expr(f.node)
-    if isinstance(rv, ast.BinOp) and isinstance(rv.op, ast.MatMult): s_rhs = 1
-    if isinstance(rv, ast.UnaryOp) and isinstance(rv.op, ast.USub): s_rhs = -1
-    f = prog.func(NA, 'nodal_analysis_constants_vector')
-    src = ast.unparse(f.node)
-    for n in ast.walk(f.node):
-        if isinstance(n, ast.ListComp) and 'element.V' in ast.unparse(n.elt):
-            s_v = -1 if isinstance(n.elt, ast.UnaryOp) and isinstance(n.elt.op, ast.USub) else 1
-    for n in [returned_expr(f.node)]:
-        if isinstance(n, ast.Call) and 'hstack' in ast.unparse(n.func):
-            parts = n.args[0].elts if n.args and isinstance(n.args[0], ast.Tuple) else []
-            for prt in parts:
-                if isinstance(prt, ast.UnaryOp) and isinstance(prt.op, ast.USub):
-                    nm = ast.unparse(prt.operand)
-                    if nm == 'I' and s_rhs is not None: s_rhs = -s_rhs
-                    if nm == 'V' and s_v is not None: s_v = -s_v
+    from . import incidence as INC
+    rs = INC.rhs_signs(prog)
+    if rs['I'] is not None and rs['QI'] is not None: s_rhs = rs['I'] * rs['QI']
+    s_v = rs['V']
     return s_read, s_rhs, s_v
 
 
